@@ -1254,4 +1254,21 @@ theorem NP.enableStreaming (p : Profile) : NP (fun _ => True) (enableStreaming p
   · rw [computeSizes_ok p e _ _ _ h.expLe h.leaderFits h.trailerFits h.payloadFits]; simp
   · rw [h]; simp
 
+theorem NP.disableStreaming : NP (fun _ => True) disableStreaming := by
+  unfold CamVerif.Streaming.disableStreaming
+  exact NP.bind NP.getSirm fun s _ => NP.writeReg32 _ _ _
+
+theorem NP.fromControl : NP (fun _ => True) fromControl := by
+  unfold CamVerif.Streaming.fromControl
+  refine NP.bind (NP.readReg _ _ _).any fun _ _ => NP.bind (NP.readReg _ _ _).any fun sb _ =>
+    NP.bind (NP.readReg _ _ _).any fun cap _ => ?_
+  by_cases hc : cap % 2 = 1
+  · simp only [hc, if_true]
+    exact NP.bind (NP.readReg _ _ _).any fun s _ => NP.bind (NP.readReg _ _ _).any fun _ _ =>
+      NP.bind (NP.readReg _ _ _).any fun _ _ => NP.bind (NP.readReg _ _ _).any fun _ _ =>
+      NP.bind (NP.readReg _ _ _).any fun _ _ => NP.bind (NP.readReg _ _ _).any fun _ _ =>
+      NP.bind (NP.readReg _ _ _).any fun _ _ => NP.bind (NP.readReg _ _ _).any fun _ _ =>
+      NP.pure _ trivial
+  · simp only [hc, if_false]; exact NP.fail _
+
 end CamVerif.Streaming
